@@ -72,6 +72,11 @@ class LogNormHooks:
             if s is None:
                 raise E.Unsupported('esum of a value that is not a log-space vector')
             return E.Num(s)
+        if recv is None and name == 'exp_of' and len(args) == 1:
+            x = self.expof(args[0])
+            if x is None:
+                return E.Num(eng.fresh('exp_of_untracked', R))      # unknown: nothing can be proved about it
+            return E.Num(x)
         if recv is None and name == 'vecsum' and len(args) == 1:
             s = (getattr(args[0], 'ghost', None) or {}).get('sum')
             if s is None:
@@ -199,9 +204,67 @@ def oracle(cls, container, extra_ensures=None):
 FG_PROJECT = dict(params=dict(self='obj:FactorGraph', attrs='obj:'), attr_types=ORACLE_ATTR, requires=['self.total > 0'], division='abort',
                   module_env={}, ensures={'answer-sums-to-total': 'vecsum(result) == self.total'})
 
+# ------------------------------------------------------------------ exact inference: GraphicalModel.belief_propagation
+class BPHooks(LogNormHooks):
+    """Final normalisation of belief propagation under the calibration lemma.
+
+    L-cal (ASSUMED here; it is the sum-product theorem that the bounded tier of C01 decides on explicit joints): once every
+    message of a valid schedule has been passed, all clique beliefs have the same exp-sum Z.  Every read of `beliefs[...]` is
+    therefore a log-vector with exp-sum Z.  What is proved on top of it: the table stored for every clique and returned is
+    exp(belief + log(total) - logZ) with logZ the log of that same Z, hence sums to self.total; with logZ=True the returned
+    scalar is log Z."""
+
+    def init(self, eng, st):
+        LogNormHooks.init(self, eng, st)
+        self.Z = z3.Real('Z_calibrated')
+        st.assume(self.Z > 0)
+        st.ghost['n_exp_sites'] = z3.IntVal(0)
+        st.ghost['n_site_stored'] = z3.IntVal(0)
+
+    def getitem(self, eng, st, o, k, node):
+        if isinstance(node.value, ast.Name) and node.value.id == 'beliefs':
+            last = st.__dict__.get('_bp_last')
+            if last is not None and z3.eq(last[0], eng.to_V(k)):
+                return last[1]                       # the value this path has just stored under the same key
+            return lv(eng, st, 'belief', self.Z)
+        return NotImplemented
+
+    def call(self, eng, st, name, recv, args, kw, node):
+        short = name.split('.')[-1]
+        if short == 'exp' and recv is not None and self.esum(recv) is not None:
+            s2 = st.fork()
+            t, facts = eng.spec('__es == self.total', s2, {'__es': E.Num(self.esum(recv))}, mode='prove')
+            for f in facts:
+                s2.assume(f)
+            eng.oblige(s2, 'site/exponentiated-belief-has-exp-sum-total@L%d' % node.lineno, t, kind='call-site')
+            st.ghost['n_exp_sites'] = st.ghost['n_exp_sites'] + 1
+        return LogNormHooks.call(self, eng, st, name, recv, args, kw, node)
+
+    def setitem(self, eng, st, tgt, o, k, val, node):
+        if isinstance(tgt.value, ast.Name) and tgt.value.id == 'beliefs':
+            st._bp_last = (eng.to_V(k), val)
+        if isinstance(tgt.value, ast.Name) and tgt.value.id == 'beliefs' and (getattr(val, 'ghost', None) or {}).get('sum') is not None:
+            s2 = st.fork()
+            t, facts = eng.spec('vecsum(__arg) == self.total', s2, {'__arg': val}, mode='prove')
+            for f in facts:
+                s2.assume(f)
+            eng.oblige(s2, 'site/stored-marginal-sums-to-total@L%d' % node.lineno, t, kind='store-site')
+            st.ghost['n_site_stored'] = st.ghost.get('n_site_stored', z3.IntVal(0)) + 1
+        return NotImplemented
+
+
+BP = dict(params=dict(self='obj:GraphicalModel', potentials='obj:dict', logZ='bool'),
+          attr_types={('GraphicalModel', 'total'): 'real'}, requires=['self.total > 0'], division='abort', module_env={},
+          pure={'CliqueVector': 'obj'},
+          loops={1: dict(invariant=[]), 2: dict(invariant=['ghost("n_exp_sites") == _it2', 'ghost("n_site_stored") == _it2'])},
+          ensures={'logZ-is-the-log-of-the-common-normaliser': 'implies(logZ__old, exp_of(result) == Z_calibrated)',
+                   'every-clique-table-normalised-and-stored':
+                   'implies(not logZ__old, ghost("n_exp_sites") == len(self.cliques) and ghost("n_site_stored") == len(self.cliques))'})
+
 ITEMS = [('src/mbi/region_graph.py', 'RegionGraph.generalized_belief_propagation', oracle('RegionGraph', 'marginals'), 'C16'),
          ('src/mbi/region_graph.py', 'RegionGraph.hazan_peng_shashua', oracle('RegionGraph', 'mu'), 'C17'),
          ('src/mbi/factor_graph.py', 'FactorGraph.clique_marginals', oracle('FactorGraph', 'marginals'), 'C16'),
          ('src/mbi/factor_graph.py', 'FactorGraph.project', FG_PROJECT, 'C16'),
          ('src/mbi/public_inference.py', 'entropic_mirror_descent', EMD, 'C19'),
          ('src/mbi/graphical_model.py', 'variable_elimination_logspace', VE, 'C02')]
+BP_ITEM = ('src/mbi/graphical_model.py', 'GraphicalModel.belief_propagation', BP)
